@@ -52,6 +52,7 @@ def main():
     try:
         if hasattr(mod, "regenerate"):
             mod.regenerate(res)
+        common.regenerate_state_sites(res)
         extra = getattr(mod, "EXTRA_TARGETS", ())
         res.proof = common.check_property_file(prop, extra)
         if res.proof["discharged"] != res.proof["obligations"]:
